@@ -37,6 +37,7 @@ type ctlState struct {
 	userStartSinceRecovering                     bool
 	everUserStartDuringRecovery                  bool
 	dstNacks, dlqRejects, procErrors, stuckCalls int
+	dstNacksBySrc                                map[string]int // rejections per source (v2 keeps one nack window per source, v1 one per pipeline)
 	restartInProgress                            bool  // an automatic restart has begun and the pipeline is not yet reported running again
 	forceStopIssued                              bool  // a force stop request has been issued at some time in this run
 	forceStopFoundRunOver                        bool  // ... and at that moment the run had already closed all its plugin sessions
@@ -233,6 +234,12 @@ func (o *Oracles) onControlEvent(w *World, e *Event) {
 	case "DST_ACK":
 		if !e.OK {
 			c.dstNacks++
+			for _, id := range e.IDs {
+				if c.dstNacksBySrc == nil {
+					c.dstNacksBySrc = map[string]int{}
+				}
+				c.dstNacksBySrc[id.Src]++
+			}
 		}
 	case "DLQ_ACK":
 		if !e.OK {
@@ -245,6 +252,17 @@ func (o *Oracles) onControlEvent(w *World, e *Event) {
 			c.procErrors++
 		}
 	}
+}
+
+// someSourceNackedMoreThan: every record of the scenario is rejected, so a source with more
+// than thr rejections has exceeded the threshold in either engine's window.
+func (c *ctlState) someSourceNackedMoreThan(thr int) bool {
+	for _, n := range c.dstNacksBySrc {
+		if n > thr {
+			return true
+		}
+	}
+	return false
 }
 
 func firstLine(s string) string {
@@ -352,7 +370,7 @@ func (o *Oracles) scenarioChecks(w *World) {
 	switch w.cfg.Scenario {
 	case "fatal-dlq-threshold", "fatal-dlq-write", "fatal-proc-error", "fatal-nonconverge":
 		// the scripted cause must actually have occurred in this run
-		occurred := map[string]bool{"fatal-dlq-threshold": c.dstNacks > w.cfg.DLQ.Threshold, "fatal-dlq-write": c.dlqRejects > 0, "fatal-proc-error": c.procErrors > 0, "fatal-nonconverge": c.stuckCalls > 0}[w.cfg.Scenario]
+		occurred := map[string]bool{"fatal-dlq-threshold": c.someSourceNackedMoreThan(w.cfg.DLQ.Threshold), "fatal-dlq-write": c.dlqRejects > 0, "fatal-proc-error": c.procErrors > 0, "fatal-nonconverge": c.stuckCalls > 0}[w.cfg.Scenario]
 		if !occurred {
 			return
 		}
